@@ -3,6 +3,7 @@ import logging
 import queue
 import threading
 import time
+import zlib
 
 import canopen
 from canopen import objectdictionary as od
@@ -21,6 +22,14 @@ THEOREMS = [
     "Canopen.C03.bytes_roundtrip",
     "Canopen.C03.lookup_agree",
     "Canopen.C03.channel_isolation",
+    "Canopen.C03.upload_lib_refused",
+    "Canopen.C03.access_roundtrip",
+    "Canopen.C03.typed_roundtrip_access",
+    "Canopen.C03.bytes_roundtrip_access",
+    "Canopen.C03.local_assign_roundtrip",
+    "Canopen.C03.local_assign_typed",
+    "Canopen.C03.local_assign_bytes",
+    "Canopen.C03.remote_read_never_differs",
 ]
 FINGERPRINT = c02.FINGERPRINT + [
     "canopen.sdo.client:SdoClient.request_response",
@@ -30,6 +39,8 @@ FINGERPRINT = c02.FINGERPRINT + [
     "canopen.sdo.client:SdoClient.open",
     "canopen.sdo.client:ReadableStream",
     "canopen.sdo.client:WritableStream",
+    "canopen.sdo.server:SdoServer.upload",
+    "canopen.sdo.server:SdoServer.download",
     "canopen.sdo.base:SdoVariable.get_data",
     "canopen.sdo.base:SdoVariable.set_data",
     "canopen.sdo.base:SdoBase.__getitem__",
@@ -51,11 +62,14 @@ TRUSTED = c02.TRUSTED + [
     "io.BufferedWriter(7) offers the whole unsent remainder to the raw stream (as in C01)",
 ]
 ASSUMPTIONS = ["text values have no trailing NUL (decode strips them); REAL values travel as bit patterns"]
-RULE = ("op typed: one value assigned through remote.sdo[...] .raw, then read back remotely and locally; all numeric "
-        "types with boundary/seeded values (all values of 8-bit types; of 16-bit types in thorough), BOOLEAN, REAL "
-        "patterns, strings and DOMAIN of length 0..200; access by index, name and 'Record.Member'; delivery inline, "
-        "by a dispatcher thread with seeded delays, over python-can's virtual bus; op multi: 1..8 client threads on "
-        "distinct nodes (oracle only); non-trivial = set and both reads returned values")
+RULE = ("op typed: one value assigned through remote.sdo[...] .raw, then read back remotely and locally (typed accessor "
+        "and sdo.upload); op ltyped: the same with the assignment made through the local node's own accessor; all "
+        "numeric types with boundary/seeded values (all values of 8-bit types; of 16-bit types in thorough), BOOLEAN, "
+        "REAL patterns, strings and DOMAIN of length 0..200; entries of every access type (rw, ro, wo, const, rwr, rww: "
+        "every type x access type x side on every run, and a seeded share of the value sweep); access by index, name "
+        "and 'Record.Member'; delivery inline, by a dispatcher thread with seeded delays, over python-can's virtual "
+        "bus; op multi: 1..8 client threads on distinct nodes (oracle only); non-trivial = set went through, the local "
+        "side returned a value and the remote side returned a value or a refusal")
 
 
 # ---------------------------------------------------------------------- buses
@@ -158,7 +172,9 @@ def accessor(node, idx, sub, entries, path):
     return node.sdo[f"o{idx}.o{idx}_{sub}"] if kind != "v" else node.sdo[f"o{idx}"]
 
 
-def run_typed(entries, idx, sub, t, val, delivery, rng=None, vchan="c03"):
+def run_typed(entries, idx, sub, t, val, delivery, rng=None, vchan="c03", local_set=False):
+    """assignment through the remote accessor (`typed`) or through the local node's own accessor (`ltyped`), then
+    what the node holds and the read-back from both sides"""
     mode, path = delivery.split("-")
     late = mode == "late"
     hub = Hub("inline") if late else None
@@ -176,7 +192,7 @@ def run_typed(entries, idx, sub, t, val, delivery, rng=None, vchan="c03"):
             hub.hold, hub.held = None, None
             remote.sdo.RESPONSE_TIMEOUT = 2.0
         try:
-            accessor(remote, idx, sub, entries, path).raw = c02.py_val(val, tt)
+            accessor(local if local_set else remote, idx, sub, entries, path).raw = c02.py_val(val, tt)
             s1 = "ok"
         except Exception as e:
             s1 = c02_err(e)
@@ -190,7 +206,11 @@ def run_typed(entries, idx, sub, t, val, delivery, rng=None, vchan="c03"):
             loc = c04.show_val(accessor(local, idx, sub, entries, path).raw, str(tt))
         except Exception:
             loc = "err"
-        return f"{s1} | {stored} | {s2} | {loc}"
+        try:
+            lraw = c04.hx(bytes(local.sdo.upload(idx, sub)))
+        except Exception:
+            lraw = "err"
+        return f"{s1} | {stored} | {s2} | {loc} | {lraw}"
     finally:
         closer()
 
@@ -356,10 +376,10 @@ def run_impl(op):
         return run_lookup(a)
     if a[0] == "shared":
         return run_shared(c02.parse_od(a[1]), int(a[2]), int(a[3]), a[4], c02.parse_val(a[5]))
-    if a[0] == "typed":
+    if a[0] in ("typed", "ltyped"):
         import random
         return run_typed(c02.parse_od(a[1]), int(a[2]), int(a[3]), a[4], c02.parse_val(a[5]), a[6],
-                         rng=random.Random(hash(op) & 0xFFFF))
+                         rng=random.Random(zlib.crc32(op.encode()) & 0xFFFF), local_set=a[0] == "ltyped")
     if a[0] == "multi":
         return run_multi(int(a[1]), a[2], int(a[3]))
     return "bad-op"
@@ -408,30 +428,67 @@ def oracle(op, out):
         if parts[0] == "ok" and parts[1] != exp:
             return f"shared dictionary: node 6 (never written) reads {parts[1]} after node 5 was written; its own value is {exp}"
         return None
+    # typed / ltyped: judged by the property's statement and the entry's access type alone.  The bus may read an entry
+    # whose access type has an "r" (or is "const") and may assign one whose access type has a "w"; the local node's own
+    # accessors (the application side) are not subject to access rights.  What C03 demands:
+    #  * an assignment that is admitted (remote: the access type has a "w"; local: always) succeeds,
+    #  * the node then holds exactly the CiA 301 encoding,
+    #  * the LOCAL side reads the value back (typed accessor and sdo.upload), whatever the access type,
+    #  * the REMOTE side reads the value back when the bus may read the entry; when it may not, the read is refused
+    #    (which code: C06) - C03 only demands that no *different* value is ever returned.
     entries = c02.parse_od(a[1])
     idx, sub = int(a[2]), int(a[3])
     t = None if a[4] == "n" else int(a[4])
     val = c02.parse_val(a[5])
     vd, code = c02.find_entry(entries, idx, sub)
     enc = c02.cia_encode(t, val)
-    if vd is None or enc is None or not c02.writable(vd[1]) or not c02.readable(vd[1]):
-        return None                       # refusals are C06's business
+    if vd is None or enc is None:
+        return None
+    acc = c02.ACCESS[vd[1]]
+    local_set = a[0] == "ltyped"
     parts = out.split(" | ")
+    if len(parts) != 5:
+        return f"malformed result {out!r}"
+    if not local_set and not c02.writable(vd[1]):
+        # the bus may not assign a ro/const entry: the refusal is C06's business.  C03 still has "either side": if
+        # both sides return a value, it is the same value.
+        if parts[2].startswith("ok ") and parts[3] != "err" and parts[2] != "ok " + parts[3]:
+            return f"the two sides disagree on a '{acc}' entry: remote reads {parts[2]}, local reads {parts[3]}"
+        return None
+    who = "local node's own" if local_set else "remote"
     if parts[0] != "ok":
-        return f"assignment through the remote accessor failed: {parts[0]}"
+        return f"assignment through the {who} accessor to a '{acc}' entry failed: {parts[0]}"
     if parts[1] != c04.hx(enc):
-        return f"local node holds {parts[1]}, the CiA 301 encoding of the value is {c04.hx(enc)}"
+        return f"local node holds {parts[1]}, the CiA 301 encoding of the value is {c04.hx(enc)} ('{acc}' entry)"
     exp = expected_read(t, val)
-    if parts[2] != "ok " + exp:
-        return f"remote read-back gave {parts[2]}, assigned {exp}"
+    if c02.readable(vd[1]):
+        if parts[2] != "ok " + exp:
+            return f"remote read-back of a '{acc}' entry gave {parts[2]}, assigned {exp}"
+    elif parts[2].startswith("ok ") and parts[2] != "ok " + exp:
+        return f"remote read of a '{acc}' entry returned a different value: {parts[2]}, assigned {exp}"
     if parts[3] != exp:
-        return f"local read gave {parts[3]}, assigned {exp}"
+        return f"local read of a '{acc}' entry gave {parts[3]}, assigned {exp} through the {who} accessor"
+    if parts[4] != c04.hx(enc):
+        return f"local sdo.upload of a '{acc}' entry gave {parts[4]}, the node was assigned {c04.hx(enc)}"
     return None
+
+
+def _access_of(a):
+    """access type of the addressed entry of a typed / ltyped op, as text"""
+    try:
+        vd, _ = c02.find_entry(c02.parse_od(a[1]), int(a[2]), int(a[3]))
+        return c02.ACCESS[vd[1]]
+    except Exception:
+        return "?"
 
 
 def signature(op, what):
     a = op.split(" ")
-    return f"{a[0]}:{a[4] if a[0] in ('typed', 'shared') else a[2]}:{what.split(' ')[0]}"
+    if a[0] in ("typed", "ltyped"):
+        # data type, and for entries other than the plain read-write one the access type
+        acc = _access_of(a)
+        return f"{a[0]}:{a[4]}{'' if acc == 'rw' else ':' + acc}:{what.split(' ')[0]}"
+    return f"{a[0]}:{a[4] if a[0] == 'shared' else a[2]}:{what.split(' ')[0]}"
 
 
 def nontrivial(op, out):
@@ -442,16 +499,46 @@ def nontrivial(op, out):
     p = out.split(" | ")
     if op.startswith("shared"):
         return p[0] == "ok"
-    return p[0] == "ok" and p[2].startswith("ok") and p[3] != "err"
+    # the assignment went through and the local side returned a value; the remote side returned a value or (entry not
+    # readable over the bus) was refused with an abort
+    return p[0] == "ok" and (p[2].startswith("ok") or p[2].startswith("err aborted")) and p[3] != "err"
 
 
 def classify(op, out):
     a = op.split(" ")
-    return f"{a[0]}:{a[-1] if a[0] == 'typed' else a[4] if a[0] == 'shared' else a[2]}"
+    if a[0] in ("typed", "ltyped"):
+        return f"{a[0]}:{_access_of(a)}:{a[-1]}"
+    return f"{a[0]}:{a[4] if a[0] == 'shared' else a[2]}"
 
 
 def shrink_candidates(op):
-    return []
+    """typed / ltyped: simpler delivery, a plain variable instead of a record / array, no pre-set value or default, no
+    by-stander entries, a smaller value - the access type of the addressed entry is kept"""
+    a = op.split(" ")
+    if a[0] not in ("typed", "ltyped"):
+        return
+    entries = c02.parse_od(a[1])
+    idx, sub = int(a[2]), int(a[3])
+    vd, _ = c02.find_entry(entries, idx, sub)
+    if vd is None:
+        return
+    if a[6] != "inline-idx":
+        yield " ".join(a[:6] + ["inline-idx"])
+    plain = [("v", idx, (vd[0], vd[1], None, None))]
+    if entries != plain:
+        if len(entries) > 1:
+            yield " ".join([a[0], c02.od_token([e for e in entries if e[1] == idx])] + a[2:])
+        yield " ".join([a[0], c02.od_token(plain), a[2], "0"] + a[4:6] + [a[6].replace("dot", "name")])
+    k, x = c02.parse_val(a[5])
+    smaller = []
+    if k == "i" and x not in (0, 1):
+        smaller = [("i", 1), ("i", 0)]
+    elif k in ("s", "x") and len(x) > 1:
+        smaller = [(k, x[:1])]
+    elif k == "f" and x != 0:
+        smaller = [("f", 0)]
+    for v in smaller:
+        yield " ".join(a[:5] + [c02.val_token(v), a[6]])
 
 
 # ---------------------------------------------------------------------- generator
@@ -504,34 +591,79 @@ def values(t, rng, tier):
 DELIVERIES = ["inline-idx", "inline-name", "inline-dot", "thread-idx", "thread-name", "late-idx", "late-name"]
 
 
+# access types (codes of c02.ACCESS): the bus may assign rw / wo / rwr / rww entries, and may read all but wo
+REMOTE_ASSIGNABLE = [0, 2, 4, 5]
+ALL_ACCESS = [0, 1, 2, 3, 4, 5]
+TYPES = sorted(c04.SPEC) + [0x01, 0x08, 0x11, 0x09, 0x0A, 0x0B, 0x0F]
+
+
+def typed_op(rng, tier, t, val, access=0, local_set=False, delivery=None):
+    """one `typed` (assignment through the remote accessor) or `ltyped` (through the local node's own accessor)
+    operation on an entry of type `t` and the given access type, as a variable, record member or array member"""
+    kind = rng.choice("vra")
+    idx = rng.choice([0x2000, 0x2001, 0x6040, 0x1018, 0xFFFF])
+    sub = 0 if kind == "v" else rng.choice([0, 1, 2, 5, 255] if kind == "r" else [1, 2, 5])
+    vd = (t, access, None, None)
+    if rng.random() < 0.25:
+        # configurations: the dictionary carries a ParameterValue and / or a default for the object
+        # (another value of the same type); what was written wins over both
+        other = rng.choice(values(t, rng, "quick"))
+        vd = rng.choice([(t, access, other, None), (t, access, None, other),
+                         (t, access, other, rng.choice(values(t, rng, "quick")))])
+    if kind == "v":
+        entries = [("v", idx, vd)]
+    else:
+        subs = sorted({1, sub})
+        entries = [(kind, idx, [(s, vd) for s in subs])]
+    entries.append(("v", 0x3000, (0x05, 0, None, ("i", 1))))
+    r = rng.random()
+    if delivery is None:
+        if tier == "quick":
+            delivery = ("inline-idx" if r < 0.7 else rng.choice(DELIVERIES[1:3]) if r < 0.87 else
+                        rng.choice(DELIVERIES[5:]) if r < 0.97 else rng.choice(DELIVERIES[3:5]))
+        else:
+            delivery = rng.choice(DELIVERIES + (["vcan-idx"] if r < 0.002 else []))
+    if kind == "v" and delivery.endswith("dot"):
+        delivery = delivery.replace("dot", "name")
+    return (f"{'ltyped' if local_set else 'typed'} {c02.od_token(entries)} {idx} {sub} {t} "
+            f"{c02.val_token(val)} {delivery}")
+
+
+def access_variant(rng, tier, t, val):
+    """the same round trip on an entry that is not plain read-write, or assigned from the local side"""
+    r = rng.random()
+    if r < 0.45:        # the bus assigns an entry it may write: write-only above all
+        return typed_op(rng, tier, t, val, access=rng.choice([2, 2, 2, 4, 5]))
+    if r < 0.93:        # the application assigns; the bus may read it back unless the entry is write-only
+        return typed_op(rng, tier, t, val, access=rng.choice([1, 3, 2, 1, 3, 2, 0, 4, 5]), local_set=True)
+    return typed_op(rng, tier, t, val, access=rng.choice([1, 3]))     # refused by the server (C06); both sides agree
+
+
 def gen_ops(tier, rng):
-    types = sorted(c04.SPEC) + [0x01, 0x08, 0x11, 0x09, 0x0A, 0x0B, 0x0F]
-    for t in types:
-        for val in values(t, rng, tier):
-            kind = rng.choice("vra")
-            idx = rng.choice([0x2000, 0x2001, 0x6040, 0x1018, 0xFFFF])
-            sub = 0 if kind == "v" else rng.choice([0, 1, 2, 5, 255] if kind == "r" else [1, 2, 5])
-            vd = (t, 0, None, None)
-            if rng.random() < 0.25:
-                # configurations: the dictionary carries a ParameterValue and / or a default for the object
-                # (another value of the same type); what was written wins over both
-                other = rng.choice(values(t, rng, "quick"))
-                vd = rng.choice([(t, 0, other, None), (t, 0, None, other), (t, 0, other, rng.choice(values(t, rng, "quick")))])
-            if kind == "v":
-                entries = [("v", idx, vd)]
+    # every data type x every access type x assignment from either side, on every run
+    for t in TYPES:
+        vals = values(t, rng, "quick")
+        for access in ALL_ACCESS:
+            for local_set in (False, True):
+                if access == 0 and not local_set:
+                    continue                    # the plain read-write round trip is swept below
+                delivery = rng.choice(["inline-idx", "inline-idx", "inline-name", "inline-dot"])
+                yield typed_op(rng, "quick", t, rng.choice(vals), access=access, local_set=local_set,
+                               delivery=delivery)
+    for t in TYPES:
+        vals = values(t, rng, tier)
+        # share of the value sweep repeated on another access type / from the local side: quick 30 %; thorough every
+        # value twice, except in the exhaustive 16-bit sweeps (25 %)
+        for val in vals:
+            yield typed_op(rng, tier, t, val)
+            if tier != "thorough":
+                n = int(rng.random() < 0.3)
+            elif len(vals) > 2000:
+                n = int(rng.random() < 0.25)
             else:
-                subs = sorted({1, sub})
-                entries = [(kind, idx, [(s, vd) for s in subs])]
-            entries.append(("v", 0x3000, (0x05, 0, None, ("i", 1))))
-            r = rng.random()
-            if tier == "quick":
-                delivery = ("inline-idx" if r < 0.7 else rng.choice(DELIVERIES[1:3]) if r < 0.87 else
-                            rng.choice(DELIVERIES[5:]) if r < 0.97 else rng.choice(DELIVERIES[3:5]))
-            else:
-                delivery = rng.choice(DELIVERIES + (["vcan-idx"] if r < 0.002 else []))
-            if kind == "v" and delivery.endswith("dot"):
-                delivery = delivery.replace("dot", "name")
-            yield f"typed {c02.od_token(entries)} {idx} {sub} {t} {c02.val_token(val)} {delivery}"
+                n = 2
+            for _ in range(n):
+                yield access_variant(rng, tier, t, val)
     # two local nodes built from one dictionary object: what is written to one does not show on the other
     for t in sorted(c04.SPEC) + [0x01, 0x08, 0x09, 0x0A]:
         vals = values(t, rng, "quick")
@@ -579,12 +711,29 @@ def gen_ops(tier, rng):
 CORPUS = [
     "typed v@8192@10,0,n,n 8192 0 10 x- inline-idx",       # F6: empty OCTET_STRING read back as 00000000
     "typed v@8192@15,0,n,n 8192 0 15 x- inline-idx",
+    # access types: the master writes a write-only entry, the application reads it back (by index, by name, as a
+    # record member); the application sets read-only / constant entries and both sides read them
+    "typed v@8704@7,2,n,n 8704 0 7 i3735928559 inline-idx",
+    "typed v@8705@3,2,n,n 8705 0 3 i-2 inline-name",
+    "typed v@8706@9,2,n,n 8706 0 9 s115.101.99.114.101.116 inline-name",
+    "typed r@8707@1=6,2,n,i7|2=6,0,n,n 8707 1 6 i4660 inline-dot",
+    "typed v@8708@10,2,n,n 8708 0 10 x- inline-idx",
+    "typed v@8709@5,4,n,n 8709 0 5 i255 inline-idx",
+    "typed v@8710@5,5,n,n 8710 0 5 i1 late-idx",
+    "ltyped v@8711@7,1,n,i1 8711 0 7 i305419896 inline-idx",
+    "ltyped v@8712@6,3,i1,n 8712 0 6 i65535 inline-name",
+    "ltyped v@8713@4,2,n,n 8713 0 4 i-2147483648 inline-idx",
+    "ltyped a@8714@1=15,1,n,n 8714 2 15 x0102030405060708 inline-idx",
+    "typed v@8715@6,1,n,i9 8715 0 6 i1 inline-idx",       # refused (C06); both sides still read the default
 ]
 
 LEVEL_TEXT = ("Lean 4 theorems about the library's client model composed with the library's server model: a download "
               "through the typed accessor stores exactly the CiA 301 encoding at the local node, and reading back from "
               "either side returns the value, for every integer type and in-range value, for BOOLEAN/REAL patterns and "
-              "for byte strings of every length; index, name and 'Record.Member' reach the same entry; requests on the "
+              "for byte strings of every length; for every access type that admits the write (rw, wo, rwr, rww) the "
+              "local side reads the value back and the remote side reads it or - write-only entry - is refused with "
+              "0x06010001 and never gets another value; the same after an assignment by the application itself, for all "
+              "six access types; index, name and 'Record.Member' reach the same entry; requests on the "
               "bus reach exactly the addressed node's server, so interleaved transfers to distinct nodes do not see "
               "each other; tied to the code by differential runs (inline, dispatcher thread, python-can virtual bus, "
               "1..8 client threads)")
